@@ -113,3 +113,16 @@ Print Assumptions c20_strict_exact.
 Theorem c20_strict_fuel : forall f1 f2 toks, (length toks < f1)%nat -> (length toks < f2)%nat -> st_segments f1 toks = st_segments f2 toks.
 Proof. exact fuel_irrelevant. Qed.
 Print Assumptions c20_strict_fuel.
+
+(* ---- regenerated from the source on every run (tools/extract_tables -> Gen/Extracted.v) ---- *)
+From GB Require Import Gen.Extracted Proofs.ExtractedTemplateProofs.
+(* the tokenizers' delimiter sets per state (tnext in tokenize.go; the IndexAny arguments in gwbased/parse.go), the path
+   character marks of both literal checkers and the end marker, as the code has them NOW, are what the model uses *)
+Theorem c20_source_tables : 
+  (forall st c, (st < 3)%nat -> is_delim st c = existsb (N.eqb c) (nth st strict_delims [])) /\
+  (forall st c, (st < 3)%nat -> is_delim st c = existsb (N.eqb c) (nth st gw_delims [])) /\
+  (forall c, is_pchar_plain c = is_alpha c || is_digit c || existsb (N.eqb c) strict_pchar_marks) /\
+  (forall c, is_pchar_plain c = is_alpha c || is_digit c || existsb (N.eqb c) gw_pchar_marks) /\
+  eof = strict_eof /\ eof = gw_eof.
+Proof. exact (conj strict_delims_model (conj gw_delims_model (conj strict_pchar_model (conj gw_pchar_model eof_model)))). Qed.
+Print Assumptions c20_source_tables.
